@@ -41,6 +41,10 @@ _UNOPS = {ast.USub: '-', ast.UAdd: '+', ast.Not: 'not', ast.Invert: '~'}
 
 NOELEM = T('noelem')
 
+# external functions that map over a pytree argument leaf-wise
+_PYTREE_EXT = {'jax.lax.all_gather', 'jax.lax.with_sharding_constraint', 'jax.lax.psum', 'jax.lax.pmean',
+               'jax.lax.stop_gradient', 'jax.device_put', 'jax.block_until_ready'}
+
 
 class Scope:
   _n = 0
@@ -107,6 +111,7 @@ class Evaluator:
     self.path = []
     self.frames = []
     self.loop_stack = []
+    self.cond_log = []     # every traced two-armed conditional met: (term, function, node)
     self.loop_ctl = []     # per active loop: list of (cond, snapshot, kind) for undecided continue/break
     self._ids = 0
     self._active = []     # fqs being inlined (recursion guard)
@@ -212,7 +217,7 @@ class Evaluator:
     for k in set(va) | set(vb):
       a = va.get(k, UNBOUND)
       b = vb.get(k, UNBOUND)
-      out[k] = a if a is b else ite(c, a, b)
+      out[k] = a if a is b else self._merge_val(c, a, b)
     scope.vars = out
     hout = {}
     for k in set(ha) | set(hb):
@@ -220,6 +225,21 @@ class Evaluator:
       b = hb.get(k, UNBOUND)
       hout[k] = a if a is b else ite(c, a, b)
     self.heap = hout
+
+  def _merge_val(self, c, a, b):
+    # a list extended on one branch only: keep the common prefix and mark the extras as conditional
+    if a.op == 'list' and b.op == 'list' and a is not b:
+      la, lb = a.args, b.args
+      if len(la) >= len(lb) and la[:len(lb)] == lb:
+        extra, cond = la[len(lb):], c
+      elif len(lb) > len(la) and lb[:len(la)] == la:
+        extra, cond = lb[len(la):], neg(c)
+      else:
+        return ite(c, a, b)
+      short_ = lb if len(la) >= len(lb) else la
+      marked = [T('star', e.args[0], T('guarded', cond, e.args[1])) if e.op == 'star' else T('star', e, T('guarded', cond)) for e in extra]
+      return T('list', *(tuple(short_) + tuple(marked)))
+    return ite(c, a, b)
 
   # ------------------------------------------------------------ statements
   def exec_block(self, stmts, scope):
@@ -417,6 +437,9 @@ class Evaluator:
         inits[v] = scope.vars[v]
         scope.vars[v] = T('phi', lid, v, inits[v])
     self.assign(s.target, self.elem_of(it), scope)
+    mutated = [v for v in _mutated_names(s.body) if v in scope.vars and scope.vars[v].op == 'list' and v not in assigned]
+    for v in mutated:
+      scope.vars[v] = T('list', *(scope.vars[v].args + (T('star', T('loopacc', lid, v), T('loopacc_dom', lid)),)))
     self.loop_stack.append((lid, it))
     self.path.append(T('inloop', lid))
     self.loop_ctl.append([])
@@ -427,6 +450,10 @@ class Evaluator:
       self.path.pop()
       self.loop_stack.pop()
     self._merge_pending(scope, pend)
+    for v in mutated:
+      cur = scope.vars.get(v)
+      if cur is not None and cur.op == 'list':
+        scope.vars[v] = T('list', *[e for e in cur.args if not (e.op == 'star' and e.args[0].op == 'loopacc' and e.args[0].args[0] == lid)])
     for v in assigned:
       if v in scope.vars:
         bv = scope.vars[v]
@@ -505,12 +532,21 @@ class Evaluator:
         else:
           elts = [T('star', self.elem_of(a), a)]
       if star_dom is not None:
-        elts = [T('star', e if e.op != 'star' else e, T('loopdom', star_dom[0], star_dom[1])) if True else e for e in elts]
+        guards = tuple(c for c in self.path[self._loop_path_base():] if c.op != 'inloop')
+        elts = [T('star', (e.args[0] if e.op == 'star' else e),
+                  T('loopdom', star_dom[0], star_dom[1], guards, (e.args[1] if e.op == 'star' else NONE))) for e in elts]
       new = T('list', *(cur.args + tuple(elts)))
     else:
       new = T('mut', cur, meth, tuple(args), self.new_id('m'))
     self.assign(tgt, new, scope, quiet=True)
     return True
+
+  def _loop_path_base(self):
+    # index in self.path of the innermost enclosing 'inloop' marker
+    for i in range(len(self.path) - 1, -1, -1):
+      if self.path[i].op == 'inloop':
+        return i
+    return len(self.path)
 
   def _note_mutation(self, tgt, cur, meth, scope, node):
     fr = self.frames[-1]
@@ -623,7 +659,11 @@ class Evaluator:
         return NOELEM
       cands = []
       for e in elts:
+        if e.op == 'star' and e.args[0].op == 'loopacc':
+          continue
         cands.append(e.args[0] if e.op == 'star' else e)
+      if not cands:
+        return NOELEM
       uniq = []
       for c in cands:
         if c not in uniq:
@@ -930,6 +970,13 @@ class Evaluator:
       return ite(base.args[0], self.attr(base.args[1], name, n), self.attr(base.args[2], name, n))
     if op == 'cond' and base.args[1].op in ('rec', 'cond') and base.args[2].op in ('rec', 'cond'):
       return T('cond', base.args[0], self.attr(base.args[1], name, n), self.attr(base.args[2], name, n))
+    if op == 'oneof' and all(x.op in ('rec', 'obj') for x in base.args):
+      parts = []
+      for x in base.args:
+        v = self.attr(x, name, n)
+        if v not in parts:
+          parts.append(v)
+      return parts[0] if len(parts) == 1 else T('oneof', *parts)
     return T('attr', base, name, loc=self._loc(n) if n is not None else None)
 
   def _method_value(self, ci, name, recv, is_class_access=False):
@@ -1420,6 +1467,12 @@ class Evaluator:
         return const(sum(cval(x) for x in a[0].args))
       except Exception:
         return None
+    if name == 'isinstance' and len(a) == 2 and a[0].op in ('cond', 'ite'):
+      r1 = self.call_builtin(name, [a[0].args[1], a[1]], kwargs, n, scope)
+      r2 = self.call_builtin(name, [a[0].args[2], a[1]], kwargs, n, scope)
+      if r1 is not None and r1 is r2:
+        return r1
+      return None
     if name == 'isinstance' and len(a) == 2:
       x, c = a
       if c.op == 'builtin':
@@ -1429,6 +1482,10 @@ class Evaluator:
         if x.op == 'const':
           return const(isinstance(cval(x), getattr(_builtins, cn, ())) if isinstance(getattr(_builtins, cn, None), type) else False)
         if x.op in ('rec', 'obj', 'closure', 'enum'):
+          return FALSE
+        if x.op == 'call' and x.args[0].op == 'ext' and x.args[0].args[0].split('.')[0] in ('jax', 'numpy') and cn in ('list', 'tuple', 'dict', 'set', 'str'):
+          return FALSE
+        if x.op == 'bin' and cn in ('list', 'tuple', 'dict', 'set') and x.args[1].op not in ('list', 'tuple', 'mut', 'phi') and x.args[2].op not in ('list', 'tuple', 'mut', 'phi'):
           return FALSE
       if c.op == 'class':
         if x.op in ('rec', 'obj'):
@@ -1503,7 +1560,9 @@ class Evaluator:
       self.path.append(T('condarm', a[0], False))
       tb = self.call(a[2], ops, {}, n, scope)
       self.path.pop()
-      return T('cond', a[0], ta, tb, loc=self._loc(n) if n is not None else None)
+      r_ = T('cond', a[0], ta, tb, loc=self._loc(n) if n is not None else None)
+      self.cond_log.append((r_, self.cur_fq(), n))
+      return r_
     if dotted in ('jax.lax.while_loop',) and len(a) == 3:
       wid = self.new_id('wl')
       st = T('wstate', wid)
@@ -1520,6 +1579,12 @@ class Evaluator:
       return T('reduce', a[0], a[1], *a[2:])
     if dotted in ('jax.named_scope',):
       return T('ctx', dotted)
+    if dotted in _PYTREE_EXT and a and a[0].op in ('rec', 'list', 'tuple', 'ite', 'cond'):
+      rest = list(a[1:])
+
+      def leaf_fn(v):
+        return self.generic_call(ext(dotted), [v] + rest, kwargs, n)
+      return self.map_structure(a[0], leaf_fn)
     if dotted == 'typing.cast' and len(a) == 2:
       return a[1]
     if dotted == 'copy.deepcopy' and len(a) == 1:
@@ -1571,10 +1636,13 @@ class Evaluator:
         return T(v0.op, *out)
       if self._is_empty_node(v0):
         return v0
-      if v0.op == 'ite':
+      if v0.op in ('ite', 'cond'):
         def arm(i):
-          return self.tree_map(f, [v0.args[i]] + [t.args[i] if (t.op == 'ite' and t.args[0] is v0.args[0]) else t for t in trees[1:]], kwargs, n, scope, depth + 1)
-        return ite(v0.args[0], arm(1), arm(2))
+          return self.tree_map(f, [v0.args[i]] + [t.args[i] if (t.op == v0.op and t.args[0] is v0.args[0]) else t for t in trees[1:]], kwargs, n, scope, depth + 1)
+        if v0.op == 'ite':
+          return ite(v0.args[0], arm(1), arm(2))
+        if v0.args[1].op in ('rec', 'list', 'tuple', 'cond') or v0.args[2].op in ('rec', 'list', 'tuple', 'cond'):
+          return T('cond', v0.args[0], arm(1), arm(2))
       if v0.op in ('call', 'bin', 'sub', 'attr', 'default', 'const', 'un', 'cond', 'while') or (v0.op == 'sym' and depth > 0):
         # an array-like leaf (or an unknown subtree of a known record): apply f
         if depth > 0 or v0.op in ('call', 'bin'):
@@ -1582,6 +1650,29 @@ class Evaluator:
     leaves = [self.leaf_of(x) for x in trees]
     elt = self.call(f, leaves, {}, n, scope)
     return T('tmap', elt, tuple(trees), tuple(sorted(kwargs.items())))
+
+  def map_structure(self, v, fn, depth=0):
+    if depth > 8:
+      return fn(v)
+    if v.op == 'rec':
+      ci = self.model.classes.get(v.args[0])
+      static = set(ci.static_fields()) if ci else set()
+      return T('rec', v.args[0], tuple((k, x if k in static else self.map_structure(x, fn, depth + 1)) for k, x in v.args[1]))
+    if v.op in ('list', 'tuple'):
+      out = []
+      for e in v.args:
+        if e.op == 'star':
+          out.append(T('star', self.map_structure(e.args[0], fn, depth + 1), e.args[1]))
+        else:
+          out.append(self.map_structure(e, fn, depth + 1))
+      return T(v.op, *out)
+    if v.op == 'ite':
+      return ite(v.args[0], self.map_structure(v.args[1], fn, depth + 1), self.map_structure(v.args[2], fn, depth + 1))
+    if v.op == 'cond':
+      return T('cond', v.args[0], self.map_structure(v.args[1], fn, depth + 1), self.map_structure(v.args[2], fn, depth + 1))
+    if self._is_empty_node(v):
+      return v
+    return fn(v)
 
   def leaf_of(self, t):
     if t.op == 'tmap':
@@ -1693,6 +1784,17 @@ class Evaluator:
     if a.kwarg and a.kwarg.arg not in bound:
       bound[a.kwarg.arg] = given.get(a.kwarg.arg, sym('param', fi.short, a.kwarg.arg))
     return self.run_function(fi.node, fi, fi.fq, defscope, bound)
+
+
+def _mutated_names(stmts):
+  out = []
+  for st in stmts:
+    for n in ast.walk(st):
+      if isinstance(n, ast.Call) and isinstance(n.func, ast.Attribute) and n.func.attr in ('append', 'extend', 'insert') \
+          and isinstance(n.func.value, ast.Name):
+        if n.func.value.id not in out:
+          out.append(n.func.value.id)
+  return out
 
 
 def _as_load(t):
